@@ -97,7 +97,8 @@ CLAIMS = {
                 "induction); rodbus's CRC constant, init value and BOTH code paths (checksum used on transmit, "
                 "digest/update/finalize used on receive) equal the fold of that step; every RTU reply built by the C01 kernels and "
                 "every RTU request built by the C03 encoders ends with that CRC, low byte first; the 256-byte limit on emitted "
-                "frames is decided by C03's limit queries. Receive side (real RtuParser::parse, recursion included, over a "
+                "frames is decided by C03's limit queries. Receive side: RtuParser::length_mode equals the protocol's length table "
+                "for all 256 function codes in both directions (exception bit honoured for replies only); (real RtuParser::parse, recursion included, over a "
                 "260-byte buffer whose residue is arbitrary): a complete 8-byte request (function 6) is handed on iff BOTH CRC "
                 "bytes verify, with destination (0 = broadcast), PDU bytes and consumption exact, for every address, body, "
                 "trailer and decode level. Thorough adds: the same frame delivered as 1+7 bytes (never acted on while incomplete, at "
